@@ -212,9 +212,14 @@ mod imp {
                 && unsafe { *tp.add(off + 2) } == b' '
             {
                 let argp = ap as *const [usize; 2];
-                let valp = unsafe { (*argp)[0] } as *const u64;
-                r.lead = unsafe { *valp };
-                r.has_lead = true;
+                // the position must be a u64 rendered by UpperHex (`{pos:#X}`): the error sort and every
+                // consumer of the messages parse `0x[0-9A-F]+`
+                let want: fn(&u64, &mut core::fmt::Formatter<'_>) -> core::fmt::Result = <u64 as core::fmt::UpperHex>::fmt;
+                if unsafe { (*argp)[1] } == want as usize {
+                    let valp = unsafe { (*argp)[0] } as *const u64;
+                    r.lead = unsafe { *valp };
+                    r.has_lead = true;
+                }
             }
         }
         let n = unsafe { *tp.add(off) };
@@ -367,7 +372,7 @@ pub fn parse_msg(msg: &str) -> Rep {
         i = 2;
         let mut v: u64 = 0;
         let mut nd = 0;
-        while i < b.len() && (b[i] as char).is_ascii_hexdigit() {
+        while i < b.len() && ((b[i] as char).is_ascii_digit() || (b'A'..=b'F').contains(&b[i])) {
             v = (v << 4) | (b[i] as char).to_digit(16).unwrap() as u64;
             i += 1;
             nd += 1;
